@@ -300,4 +300,18 @@ def C07_alloc_writes_existing : Prop :=
     (run cfg db (opsAt ops order)).1.consumers = fin.1.consumers ∧
     (∀ r ∈ (run cfg db (opsAt ops order)).2, r.ok = true)
 
+/-! ### the server-side retry of allocation writes (generated control flow) -/
+
+/-- `replace_all` returns normally ONLY after an attempt of `_set_allocations` succeeded (an attempt that loses the
+provider compare-and-swap never lets the request through, however many were allowed); otherwise it raises the
+conflict (409).  Proved of `Gen.replaceAllLoop`, the loop as the source has it today. -/
+theorem allocation_write_succeeds_only_by_a_successful_attempt (attempt : Nat → Bool) (r i : Nat) :
+    (∃ k, Gen.replaceAllLoop attempt r i = .succeeded k ∧ attempt k = true) ∨
+    (Gen.replaceAllLoop attempt r i = .raisedConflict ∧ ∀ j, i ≤ j → j < i + r → attempt j = false) := by
+  cases h : Gen.replaceAllLoop attempt r i with
+  | succeeded k => exact .inl ⟨k, rfl, (GuardTie.retry_loop_succeeded attempt r i k h).1⟩
+  | raisedConflict => exact .inr ⟨rfl, (GuardTie.retry_loop_raises_iff attempt r i).mp h⟩
+  | raisedOther => exact absurd h (GuardTie.retry_loop_never_silent attempt r i).2
+  | leftWithoutSuccess => exact absurd h (GuardTie.retry_loop_never_silent attempt r i).1
+
 end Placement.Props.C07
